@@ -75,6 +75,26 @@ def rule_pixel_pipeline(ck, m, rid):
         ck.ob(rid, enclosing_stmt(c), cds == {"self._is_animated"} and [norm(a_) for a_ in c.args] == ["self._seek_position"],
               f"the frame to render must be selected (`img.seek(self._seek_position)`) whenever the image is animated - found conditions {sorted(cds)}: a PIL image supplied by the caller keeps the "
               "position of the last render, so any shortcut renders a stale frame", stmt="_get_render_data: img.seek(self._seek_position) iff animated")
+    # which sources skip alpha processing: exactly `alpha is None` or a mode without transparency (palette modes carry it in info, not in a band)
+    top = next((s_ for s_ in grd.body if isinstance(s_, ast.If) and any(isinstance(c, ast.Call) and call_name(c) == "convert_resize_img" for x in s_.body for c in ast.walk(x))), None)
+    ck.expect(top is not None, "_get_render_data: the opaque / alpha-processing decision not found")
+    if top is not None:
+        from tiv.sem import same_bool
+        ck.ob(rid, top, same_bool(grd, top.test, "alpha is None or img.mode in {'1', 'L', 'RGB', 'HSV', 'CMYK'}", expand_b=False) or same_bool(grd, top.test, "alpha is None or img.mode in {'1', 'L', 'RGB', 'HSV', 'CMYK'}"),
+              f"alpha processing may be skipped only for `alpha is None` or the modes that cannot carry transparency {{'1','L','RGB','HSV','CMYK'}}; found `{norm(top.test)[:110]}` - palette images keep "
+              "their transparency in info['transparency'] (index 0 is a valid, falsy value)", stmt="_get_render_data: which sources skip alpha processing")
+        modes_calls = [norm(c.args[0]) for x in top.body + top.orelse for c in ast.walk(x) if isinstance(c, ast.Call) and call_name(c) == "convert_resize_img" and c.args]
+        ck.ob(rid, top, modes_calls[:2] == ["'RGB'", "'RGBA'"], f"opaque sources are converted to RGB, the others to RGBA; found {modes_calls}", stmt="_get_render_data: target modes")
+    # the bi-level classification of alpha happens whenever pixel data with rounded alpha is requested (no shortcut on the threshold value)
+    cls_st = [s_ for s_ in body_walk(grd) if isinstance(s_, ast.Assign) and isinstance(s_.value, ast.ListComp) and isinstance(s_.value.elt, ast.IfExp)]
+    for s_ in cls_st:
+        pos = set()
+        for t_, b_ in guards(s_):
+            if b_:
+                for v_ in flatten_boolop(t_, ast.And):
+                    pos.add(norm(v_))
+        ck.ob(rid, s_, pos == {"pixel_data", "round_alpha"}, f"the alpha list is classified into 0/255 under {sorted(pos)}; it must be exactly when pixel data with rounded alpha is requested "
+              "(the block renderer tests `== 0`: unclassified values below 255 would be drawn as opaque, zero as transparent whatever the threshold)", stmt="_get_render_data: alpha classified iff pixel_data and round_alpha")
     n_resize = 0
     for fn in fns:
         def owner(n):
@@ -98,6 +118,8 @@ def rule_pixel_pipeline(ck, m, rid):
 
 
 def run(ck, m):
+    from rules.common import rule_memo_safety
+    rule_memo_safety(ck, m, "MEMO", "C02")          # first: a memoised helper also hides the code it wraps from the rules below
     br = m.get(BL, "BlockImage._render_image")
     ub = m.get(BL, "BlockImage._render_image.update_buffer")
     # ---- R1 ----------------------------------------------------------------------------
@@ -292,8 +314,6 @@ def run(ck, m):
 
     rule_pixel_pipeline(ck, m, "R4")
 
-    from rules.common import rule_memo_safety
-    rule_memo_safety(ck, m, "MEMO", "C02")
 
 
 MUTANTS = [
